@@ -12,7 +12,7 @@ RULE = ("Hypothesis (program, fault choice, strategy, drive) tuples: program as 
         "handlers in the fault set perform all their actions and then raise; fault choice = Hypothesis subset of "
         "the executed events (indices into the fault-free run) or, for programs with <=16 executed events, EVERY "
         "single fault index in turn ('all-singles'); strategy in {LOG_AND_CONTINUE, WARN_AND_CONTINUE, "
-        "WARN_AND_PAUSE}, set with or without an explicit log level and possibly after another strategy; drive in {start, bounded runs at fractions of the horizon, steps, mixed}. Oracle: "
+        "WARN_AND_PAUSE}, set with or without an explicit log level, possibly after another strategy, and possibly changed by a handler during the run; drive in {start, bounded runs at fractions of the horizon, steps, mixed}. Oracle: "
         "metamorphic against the fault-free reference run - continue strategies: identical trace/final clock/ENDED; "
         "pause strategy: STOPPED/STARTED exactly after each failing event, nothing later ran, start() resumes, "
         "concatenated trace identical; step(): returns or raises DSOLError only, simulator STOPPED, event consumed "
@@ -32,8 +32,14 @@ def budget(tier):
     return {"examples": 100000, "shards": 16}
 
 
+def _strategy_actions(clock):
+    # the error strategy "can be set and changed, even during the execution of the simulation run"
+    return [(5, st.tuples(st.just("set_strategy"), st.sampled_from([1, 2, 3, 3])))]
+
+
 def strategy(tier):
-    prog = progs.program_strategy(max_nodes=12 if tier == "quick" else 24, illegal=False, cap=80)
+    prog = progs.program_strategy(max_nodes=12 if tier == "quick" else 24, illegal=False, cap=80,
+                                  extra_actions=_strategy_actions)
     return st.fixed_dictionaries({
         "prog": prog,
         "mode": st.sampled_from(["subset", "subset", "all-singles"]),
@@ -69,8 +75,21 @@ def _one_run(out, prog, strat, drive, cuts, mix, tag, log_level=None, prev=None)
     ck = prog["clock"]
     pause = strat == 3
     ref = RefSim(prog)
+    ref.strategy = strat
+
+    def ref_action(r, a):
+        if a[0] == "set_strategy":
+            r.strategy = a[1]
+    ref.extra_action = ref_action
     ref.initialize()
+    if ref.strategy != strat:
+        return ref          # (a strategy change inside construct_model would be overwritten below: not generated)
     h = Harness(prog)
+
+    def sut_action(m, a):
+        if a[0] == "set_strategy":
+            m.simulator.set_error_strategy(a[1])
+    h.model.extra_action = sut_action
     try:
         h.initialize()
         if prev is not None:
@@ -89,7 +108,7 @@ def _one_run(out, prog, strat, drive, cuts, mix, tag, log_level=None, prev=None)
             cmds = [["step"]] * 40
         else:
             cmds = [[m] if m != "run" else ["run", cuts[i % len(cuts)]] for i, m in enumerate(mix)]
-        cmds = cmds + [["start"]] * (2 + (len(prog.get("faults", [])) if pause else 0))
+        cmds = cmds + [["start"]] * (2 + len(prog.get("faults", [])))
         guard = 0
         i = 0
         while i < len(cmds):
@@ -110,16 +129,16 @@ def _one_run(out, prog, strat, drive, cuts, mix, tag, log_level=None, prev=None)
             else:
                 if c[0] == "run":
                     b = _bound(ref, c[1], ck)
-                    r = ref.run(b, True, pause_on_fault=pause)
+                    r = ref.run(b, True)
                     err = h.run_piece(["run_up_to_incl", _jt(b, ck)])
                 else:
-                    r = ref.run(pause_on_fault=pause)
+                    r = ref.run()
                     err = h.run_piece(["start"])
                 if err is not None:
                     out.fail("run-raised-" + type(err).__name__, {"tag": tag, "err": repr(err)})
                 if r == "fault":
                     out.label("paused-by-fault")
-                    if pause and c[0] == "start":
+                    if c[0] == "start":
                         cmds.append(["start"])
             # compare after every command
             if h.model.trace != ref.trace:
